@@ -357,6 +357,6 @@ package graph
 //@   ensures parentAndGrandparent: !result && s.Trunk != nil ==> s.Trunk.Node.ID != s.Node.ID && (s.Trunk.Trunk != nil ==> s.Trunk.Trunk.Node.ID != s.Node.ID)
 //@   ensures witness: result ==> (exists p *PathSegment :: p != nil && p.depth < s.depth && p.Node.ID == s.Node.ID)
 //@   loop 0
-//@     invariant cursor: cursor != nil && cursor.depth < s.depth && terminal == s.Node
+//@     invariant cursor: cursor != nil && cursor.depth < s.depth
 //@     invariant first: cursor != s.Trunk ==> s.Trunk.Node.ID != s.Node.ID
 //@     invariant second: s.Trunk.Trunk != nil && cursor != s.Trunk && cursor != s.Trunk.Trunk ==> s.Trunk.Trunk.Node.ID != s.Node.ID
